@@ -1,6 +1,7 @@
 package main
 
 import (
+	"math"
 	"fmt"
 	"go/types"
 	"math/big"
@@ -86,6 +87,11 @@ func litToFloat(lit string) string {
 			}
 		}
 		specFail("bad numeric literal %q", lit)
+	}
+	// a decimal literal denotes the float64 Go would convert it to (0.9 is 8106479329266893/2^53),
+	// exactly as constants in the code are rendered
+	if f, exact := r.Float64(); !exact && !math.IsInf(f, 0) {
+		r = new(big.Rat).SetFloat64(f)
 	}
 	return "(fin " + ratString(r) + ")"
 }
@@ -497,10 +503,44 @@ func (e *Env) intArg(ex *SExpr) int {
 	return n
 }
 
+// paramEventAliases: a call through a function-typed parameter is recorded as
+// "funcvalue:param:<type>:<name>". Contracts may name it that way or, robustly against renames,
+// as "funcvalue:param#<i>" (i-th parameter, receiver excluded); a renamed parameter also keeps
+// matching the name it had when the baseline was accepted.
+func (e *Env) paramEventAliases(evName string) []string {
+	const pre = "funcvalue:param:"
+	if !strings.HasPrefix(evName, pre) || e.x == nil || e.x.fn == nil {
+		return nil
+	}
+	j := strings.LastIndex(evName, ":")
+	cur := evName[j+1:]
+	off := 0
+	if e.x.fn.Signature.Recv() != nil {
+		off = 1
+	}
+	var out []string
+	for i, p := range e.x.fn.Params {
+		if p.Name() != cur || i < off {
+			continue
+		}
+		out = append(out, fmt.Sprintf("funcvalue:param#%d", i-off))
+		if a := baselineParamName(fnName(e.x.fn), i); a != "" && a != cur {
+			out = append(out, evName[:j+1]+a)
+		}
+	}
+	return out
+}
+
 func (e *Env) matchEvents(name string) []int {
 	var idx []int
 	for i, ev := range e.events {
-		if ev.Name == name || strings.HasSuffix(ev.Name, "."+name) && !strings.Contains(name, ".") {
+		alias := false
+		for _, a := range e.paramEventAliases(ev.Name) {
+			if a == name {
+				alias = true
+			}
+		}
+		if alias || ev.Name == name || strings.HasSuffix(ev.Name, "."+name) && !strings.Contains(name, ".") {
 			idx = append(idx, i)
 		}
 	}
